@@ -7,8 +7,13 @@ fixed = {}
 files = [os.path.join(ROOT, "known_findings.json")] + sorted(glob.glob(os.path.join(ROOT, "known_findings.d", "*.json")))
 for f in files:
     for e in json.load(open(f)).get("fixed", []):
-        c = str(e.get("commit", ""))[:7]
-        fixed.setdefault(c, set()).add(e.get("property", "?"))
+        if isinstance(e, str):                      # "fixed: property=C07 <sha> <what>"
+            m = re.match(r"fixed:\s*property=(\S+)\s+([0-9a-f]{7,})", e)
+            if m:
+                fixed.setdefault(m.group(2)[:7], set()).add(m.group(1))
+            continue
+        for c in re.findall(r"[0-9a-f]{7,}", str(e.get("commit", ""))):
+            fixed.setdefault(c[:7], set()).add(e.get("property", "?"))
 rows = []
 for line in log:
     h, _, s = line.partition("\t")
